@@ -62,6 +62,39 @@ class Disposables:
         # a failure of a single disposable (also when not awaited yet) does not affect the others
         return await disposable.__aexit__(exc_type, exc_val, exc_tb)
 
+    def _disposing(
+        self,
+        disposables: Iterable[Disposable],
+        /,
+        exc_type: type[BaseException] | None,
+        exc_val: BaseException | None,
+        exc_tb: TracebackType | None,
+    ) -> Future[list[bool | BaseException | None]]:
+        return gather(
+            *[self._dispose(disposable, exc_type, exc_val, exc_tb) for disposable in disposables],
+            return_exceptions=True,
+        )
+
+    async def _completed[Result](
+        self,
+        awaited: Future[Result],
+        /,
+    ) -> tuple[Result, CancelledError | None]:
+        # wait until completed even when cancelled meanwhile (possibly more than once) - cancelling
+        # it as well could prevent disposables from being exited at all, let those complete
+        # and leave propagating the cancellation to the caller
+        cancellation: CancelledError | None = None
+        while True:
+            try:
+                return (await shield(awaited), cancellation)
+
+            except CancelledError as exc:
+                if awaited.done():
+                    raise  # it is not the cancellation of waiting - result can't be delivered
+
+                if cancellation is None:
+                    cancellation = exc
+
     async def __aenter__(self) -> Iterable[State]:
         initializing: list[Task[Iterable[State]]] = [
             ensure_future(self._initialize(disposable)) for disposable in self._disposables
@@ -76,17 +109,18 @@ class Disposables:
         except BaseException as exc:
             # cancelled while initializing, the scope won't be entered
             # wait for interrupted ones and dispose what was already initialized
-            await gather(
-                *[
-                    self._dispose(disposable, type(exc), exc, exc.__traceback__)
-                    for disposable, res in zip(
-                        self._disposables,
-                        await gather(*initializing, return_exceptions=True),
-                        strict=True,
-                    )
-                    if not isinstance(res, BaseException)
-                ],
-                return_exceptions=True,
+            interrupted, _ = await self._completed(gather(*initializing, return_exceptions=True))
+            await self._completed(
+                self._disposing(
+                    [
+                        disposable
+                        for disposable, res in zip(self._disposables, interrupted, strict=True)
+                        if not isinstance(res, BaseException)
+                    ],
+                    type(exc),
+                    exc,
+                    exc.__traceback__,
+                )
             )
             raise
 
@@ -98,17 +132,23 @@ class Disposables:
                 else BaseExceptionGroup("Initializing errors", exceptions)
             )
             # dispose what was already initialized, the scope won't be entered
-            disposing_errors: list[BaseException] = [
-                res
-                for res in await gather(
-                    *[
-                        self._dispose(disposable, type(error), error, error.__traceback__)
+            disposed, cancellation = await self._completed(
+                self._disposing(
+                    [
+                        disposable
                         for disposable, res in zip(self._disposables, results, strict=True)
                         if not isinstance(res, BaseException)
                     ],
-                    return_exceptions=True,
+                    type(error),
+                    error,
+                    error.__traceback__,
                 )
-                if isinstance(res, BaseException)
+            )
+            if cancellation is not None:
+                raise cancellation  # cancelled when disposing - propagate it after completing
+
+            disposing_errors: list[BaseException] = [
+                res for res in disposed if isinstance(res, BaseException)
             ]
             if disposing_errors:
                 raise BaseExceptionGroup("Initializing errors", [*exceptions, *disposing_errors])
@@ -123,26 +163,16 @@ class Disposables:
         exc_val: BaseException | None,
         exc_tb: TracebackType | None,
     ) -> None:
-        disposing: Future[list[bool | BaseException | None]] = gather(
-            *[
-                self._dispose(
-                    disposable,
-                    exc_type,
-                    exc_val,
-                    exc_tb,
-                )
-                for disposable in self._disposables
-            ],
-            return_exceptions=True,
+        results, cancellation = await self._completed(
+            self._disposing(
+                self._disposables,
+                exc_type,
+                exc_val,
+                exc_tb,
+            )
         )
-        try:
-            results: list[bool | BaseException | None] = await shield(disposing)
-
-        except CancelledError:
-            # cancelled when disposing (or just before) - cancelling it as well could prevent
-            # disposables from being exited at all, let those complete and then propagate
-            await disposing
-            raise
+        if cancellation is not None:
+            raise cancellation  # cancelled when disposing (or just before) - propagate it after completing
 
         exceptions: list[BaseException] = [exc for exc in results if isinstance(exc, BaseException)]
 
